@@ -164,3 +164,13 @@ Proof.
 Qed.
 Lemma canon_In x l : In x (canon l) <-> In x l.
 Proof. induction l as [|y r IH]; cbn; [tauto|]. rewrite insertN_In, IH. intuition. Qed.
+
+(* normalisation of list-represented sets: any function that keeps the elements; sorted
+   duplicate-free lists for N (canonical: makes subset explorations terminate quickly),
+   duplicate removal otherwise *)
+Class Canon (A : Type) := { norm : list A -> list A; norm_In : forall x l, In x (norm l) <-> In x l }.
+#[export] Instance Canon_N : Canon N := {| norm := canon; norm_In := canon_In |}.
+Definition Canon_dedup {A} `{EqDec A} : Canon A := {| norm := dedup; norm_In := dedup_In |}.
+#[export] Instance Canon_prod {A B} `{EqDec A} `{EqDec B} : Canon (A * B) := Canon_dedup.
+#[export] Instance Canon_list {A} `{EqDec A} : Canon (list A) := Canon_dedup.
+#[export] Instance Canon_option {A} `{EqDec A} : Canon (option A) := Canon_dedup.
